@@ -265,6 +265,22 @@ pub fn shaped_rule(cfg: &AspCfg) -> BoxedStrategy<asp::Rule> {
 /// (`p :- not p.`, `p(X) :- not not p(X), q(X).`, `{p} :- p.`): shapes that rewrites about a
 /// formula and its own negation / implication by itself are sensitive to
 fn mirror_head(mut r: asp::Rule, k: u8) -> asp::Rule {
+    if (3..6).contains(&k) {
+        // 1 rule in 8: a body atom is repeated under another sign with the very same arguments
+        // (`p(1..2), not p(1..2)` is satisfiable: each literal picks its own value of the interval)
+        let pos = r.body.formulas.iter().position(|f| matches!(f, asp::AtomicFormula::Literal(_)));
+        if let Some(i) = pos {
+            if let asp::AtomicFormula::Literal(l) = r.body.formulas[i].clone() {
+                let sign = match (l.sign.clone(), k) {
+                    (asp::Sign::NoSign, 3) | (asp::Sign::DoubleNegation, _) => asp::Sign::Negation,
+                    (asp::Sign::NoSign, _) => asp::Sign::DoubleNegation,
+                    (asp::Sign::Negation, _) => asp::Sign::NoSign,
+                };
+                r.body.formulas.insert(i + 1, asp::AtomicFormula::Literal(asp::Literal { sign, atom: l.atom }));
+            }
+        }
+        return r;
+    }
     if k >= 3 {
         return r;
     }
